@@ -190,6 +190,8 @@ def history(i0: int, q0: int, i1: int, q1: int, i2: int, q2: int, i3: int, q3: i
     m = LogModel()
     pool = _pool(m)
     idx = [i0, i1, i2, i3, i4]
+    if 'idx' in hx.P:                  # targeted histories fix which systems are used; the solver chooses the priorities
+        idx = list(hx.P['idx']) + [0] * 5
     pr = [q0, q1, q2, q3, q4]
     ref = []                     # reference model: registered systems in execution order
     for k, op in enumerate(ops):
@@ -290,6 +292,10 @@ def _histories(k):
     return out
 
 
+# longer histories aimed at state that can go stale: a timestep, then changes that keep the number of systems, then a
+# timestep; removal and re-registration of the same object among equal priorities
+_TARGETED = [{"ops": "atra", "idx": [0, 0, 0, 1]}, {"ops": "atra", "idx": [0, 0, 0, 0]}, {"ops": "aatra", "idx": [0, 1, 0, 1, 1]},
+             {"ops": "aarat", "idx": [0, 1, 1, 1, 0]}, {"ops": "aatra", "idx": [1, 2, 0, 2, 0]}, {"ops": "atrat", "idx": [2, 0, 2, 3, 0]}]
 ENC_ADD = (SystemManager.add_system,)
 BOUNDS = {
     "quick": {"queue_length_prestate": "<= 5", "history_length": "<= 3", "priorities": "unbounded int",
@@ -320,7 +326,7 @@ def obligations(tier):
         X("exec_order", exec_order, parts=[{"n": n} for n in range(0, (3 if tier == "quick" else 4) + 1)],
           labels=("two_ran", "one_skipped"), timeout=300, encoded=(SystemManager.execute_systems,),
           bounds={"n": "0..%d" % (3 if tier == "quick" else 4), "start,end,frequency,timestep": "all ints, f>=1"}),
-        X("history", history, parts=_histories(3 if tier == "quick" else 4),
+        X("history", history, parts=_histories(3 if tier == "quick" else 4) + _TARGETED,
           labels=("add_rejected", "add_third", "removed", "remove_rejected", "added"), labels_for=_hist_labels,
           timeout=300, group=2,
           encoded=(SystemManager.add_system, SystemManager.remove_system, SystemManager.execute_systems, Model.execute),
